@@ -360,7 +360,7 @@ public:
       kAMX_TRANSPOSE,            //!< CPU has AMX_TRANSPOSE    (AMX-TRANSPOSE instructions).
       // @EnumValuesEnd@
 
-      kMaxValue = kAMX_TILE
+      kMaxValue = kAMX_TRANSPOSE
     };
 
     #define ASMJIT_X86_FEATURE(accessor, feature) \
